@@ -440,7 +440,8 @@ func execConv(op string, a []string) string {
 		// look-ups by kid return exactly the first entry whose kid is byte-equal or nothing, Signers / Verifiers keep order and
 		// length whatever the keys' key_ops, the sets convert back, and a COSE_Sign made with ks.Signers() verifies with
 		// ks.Verifiers() tagged, untagged and CWT-tagged.
-		//   kidStyle 0: binary kids; 1: kids differing in letter case only; 2: kids differing in bytes that are not UTF-8
+		//   kidStyle 0: binary kids; 1: kids differing in letter case only; 2: kids differing in bytes that are not UTF-8;
+		//            3: binary kids, the last three keys without kid
 		//   opsStyle 0: no key_ops; 1: [sign, verify]; 2: [sign]; 3: mixed
 		n, _ := strconv.Atoi(a[0])
 		kidStyle, opsStyle := 0, 0
@@ -473,6 +474,9 @@ func execConv(op string, a []string) string {
 			}
 			k.SetKid(kidOf(i))
 			if i == n-1 && (n > 1 || opsStyle%2 == 0) { // (a set of one keeps its kid in half of the cases)
+				delete(k, iana.KeyParameterKid)
+			}
+			if kidStyle == 3 && i >= n-3 { // the last three without kid (compressed public keys never carry one)
 				delete(k, iana.KeyParameterKid)
 			}
 			style := opsStyle
@@ -535,6 +539,15 @@ func execConv(op string, a []string) string {
 				return "verifier key set holds a private key"
 			}
 		}
+		kidless := 0
+		for _, k := range ks {
+			if len(k.Kid()) == 0 {
+				kidless++
+			}
+		}
+		if kidless > 1 { // several signers without kid cannot be told apart by a COSE_Sign verifier: look-ups and sets only
+			return "ok"
+		}
 		// the message level: signed with the set's signers, verified with the set's verifiers
 		ext := []byte("ext")
 		data, err := (&cose.SignMessage[[]byte]{Payload: []byte("payload")}).SignAndEncode(ss, ext)
@@ -582,7 +595,7 @@ func genConvOps(r *mrand.Rand, n int) []string {
 				"ecdsa": {iana.AlgorithmES256, iana.AlgorithmES384, iana.AlgorithmES512}, "ecdh": {1, 2, 3, 4}}[fam]
 			out = append(out, fmt.Sprintf("conv.gen %s %d", fam, algs[r.Intn(len(algs))]))
 		default:
-			out = append(out, fmt.Sprintf("conv.keyset %d %d %d", 1+r.Intn(5), r.Intn(3), r.Intn(4)))
+			out = append(out, fmt.Sprintf("conv.keyset %d %d %d", 1+r.Intn(5), r.Intn(4), r.Intn(4)))
 		}
 	}
 	return out
